@@ -36,6 +36,10 @@ NoFnSize(rec) == IF rec.sect = "fn" THEN [rec EXCEPT !.size = 0] ELSE rec      \
 NoVer(rec) == [rec EXCEPT !.version = "", !.isDefault = FALSE]
 Classes(cs) == {ToSet(cs[i]) : i \in 1..Len(cs)}
 
+(* A binary without debug info whose ABI is empty: abidw declines to write an empty corpus and exits 1 (status      *)
+(* "no symbols found").  Nothing was to be recorded, so this is not a deviation from C18/C28.                       *)
+EmptyAbiRefused(ev) == ev.ret = "exit1" /\ ev.abidw = <<>>
+
 RECURSIVE Join(_)
 Join(S) == IF S = {} THEN "" ELSE LET x == CHOOSE y \in S : TRUE IN x \o (IF S = {x} THEN "" ELSE ",") \o Join(S \ {x})
 RecId(x) == Id(x) \o "/" \o x.sect
@@ -60,8 +64,9 @@ SymVerdict(ev) ==
       want == {NoFnSize(x) : x \in E.records}
       Ek   == Expected(rws, CodeCtx(c))
       L    == Load(rws, c)
-  IN IF ev.ret # "ok" THEN "bad:run-" \o ev.ret
-     ELSE IF Tbl(ev) = "none" THEN "bad:no-symbol-table"
+  IN IF Tbl(ev) = "none" THEN "bad:no-symbol-table"
+     ELSE IF EmptyAbiRefused(ev) /\ want = {} THEN "ok"
+     ELSE IF ev.ret # "ok" THEN "bad:run-" \o ev.ret
      ELSE IF obs # want
           THEN IF c.kernel /\ ~c.kmode /\ obs = {NoFnSize(x) : x \in Ek.records}
                THEN Kf(KF_C28_nokernel(ev), "C28-nokernel", "no-kernel-mode-ignored:" \o Diff(want, obs))
@@ -80,8 +85,11 @@ KernelVerdict(ev) ==
       got  == {Id(x) : x \in ToSet(ev.abidw)}
       want == KernelExpectedIds(rws, c)
       D    == "missing=" \o Join(want \ got) \o ";unexpected=" \o Join(got \ want)
-  IN IF ev.ret # "ok" THEN "bad:run-" \o ev.ret
-     ELSE IF ~c.kernel THEN "bad:not-a-kernel-binary"
+  IN IF ~c.kernel THEN "bad:not-a-kernel-binary"
+     ELSE IF EmptyAbiRefused(ev) /\ want = {} THEN "ok"
+     ELSE IF EmptyAbiRefused(ev) /\ ~c.kmode /\ ExportedIds(rws) = {}
+     THEN Kf(KF_C28_nokernel(ev), "C28-nokernel", "no-kernel-mode-ignored:" \o D)
+     ELSE IF ev.ret # "ok" THEN "bad:run-" \o ev.ret
      ELSE IF got = want THEN "ok"
      ELSE IF ~c.kmode /\ got = ExportedIds(rws) THEN Kf(KF_C28_nokernel(ev), "C28-nokernel", "no-kernel-mode-ignored:" \o D)
      ELSE "bad:kernel-filter:" \o D
